@@ -17,7 +17,8 @@ func SetLimit(n int) Rule {
 		if err != nil {
 			return err
 		}
-		sel.Limit = &n
+		limit := n // each statement gets its own value: trees must not share the pointer
+		sel.Limit = &limit
 		return nil
 	})
 }
@@ -33,7 +34,8 @@ func SetOffset(n int) Rule {
 		if err != nil {
 			return err
 		}
-		sel.Offset = &n
+		offset := n // each statement gets its own value: trees must not share the pointer
+		sel.Offset = &offset
 		return nil
 	})
 }
